@@ -31,7 +31,7 @@ fn base_case(prop: &str, seed: u64) -> (Case, Rng) {
     draw_sim_part(&mut rng, &mut case);
     // the HTTP arm: a share of the runs of the properties that are stated for both transports
     let mut arm = Rng::substream(seed, "http-arm");
-    case.http_arm = matches!(prop, "C05" | "C06" | "C09" | "C13" | "C15" | "C16" | "C10") && arm.chance(0.3);
+    case.http_arm = matches!(prop, "C01" | "C02" | "C03" | "C05" | "C06" | "C07" | "C09" | "C10" | "C13" | "C14" | "C15" | "C16" | "C17" | "C18" | "C19") && arm.chance(if prop == "C03" { 0.15 } else { 0.3 });
     (case, rng)
 }
 
